@@ -35,10 +35,11 @@ type ctx struct {
 	tie    bool // write model cases (sqlite)
 	r      *rng.R
 	n      int
+	lite   bool // connected MySQL variants: a sample of the classes (no skip / TableDiff variants, fewer shuffles and sets)
 }
 
 func main() {
-	mode := flag.String("mode", "sqlite", "sqlite|mysql|postgres|postgres-ns")
+	mode := flag.String("mode", "sqlite", "sqlite|mysql|mysql-my57|mysql-my80|mysql-maria|mysql-history|postgres|postgres-ns|postgres-history")
 	tier := flag.String("tier", "quick", "quick|thorough")
 	outDir := flag.String("out", "", "output directory")
 	flag.Parse()
@@ -52,11 +53,24 @@ func main() {
 		c.differ, c.tie = scopedPGDiffer("public"), true
 		*mode = "postgres"
 	}
+	if *mode == "mysql-history" || *mode == "postgres-history" {
+		c.history(strings.TrimSuffix(*mode, "-history"), *tier == "thorough")
+		c.w.Close()
+		return
+	}
+	if strings.HasPrefix(*mode, "mysql-") {
+		// the differ of a driver the real mysql.Open built over a fake server of the variant
+		c.differ, c.tie, c.lite = openMy(c.p.variant), true, true
+		*mode = "mysql"
+	}
 	switch *mode {
 	case "sqlite":
 		c.differ, c.tie = sqlite.DefaultDiff, true
 	case "mysql":
-		c.differ, c.tie = mysql.DefaultDiff, true
+		if c.differ == nil {
+			c.differ = mysql.DefaultDiff
+		}
+		c.tie = true
 	case "postgres":
 		if c.differ == nil {
 			c.differ = postgres.DefaultDiff
@@ -77,6 +91,9 @@ func main() {
 	c.w.Set("bases", len(bs))
 	total := 0
 	for bi, b := range bs {
+		if c.lite && (bi == 1 || bi == 3 || bi == 6) {
+			continue
+		}
 		cat := catalogue(c.p, b)
 		total += len(cat)
 		c.identity(bi, b, thorough)
@@ -85,6 +102,10 @@ func main() {
 	}
 	c.w.Set("catalogue_size", total)
 	c.special()
+	if !c.p.scoped {
+		c.unnamed()
+	}
+	c.variantCases()
 	c.wild(thorough)
 	c.w.Close()
 }
@@ -164,6 +185,13 @@ func (c *ctx) tableDiff(from, to *schema.Table, mask int) (cs []schema.Change, e
 // one runs SchemaDiff(build(from), build(to)) (alias: the same graph on both sides),
 // records the case and evaluates the oracle.
 func (c *ctx) one(id, class, desc string, from, to Schema, alias bool, mask int, exp []string, oracle bool, edits ...*Edit) {
+	c.oneAlt(id, class, desc, from, to, alias, mask, [][]string{exp}, oracle, edits...)
+}
+
+// oneAlt is one with several acceptable required change lists (the property leaves open
+// which of several indistinguishable objects is the dropped / added one): the differ's
+// answer must be one of them; a violation is reported against the first.
+func (c *ctx) oneAlt(id, class, desc string, from, to Schema, alias bool, mask int, alts [][]string, oracle bool, edits ...*Edit) {
 	g1 := build(c.p.dialect, from)
 	g2 := g1
 	if !alias {
@@ -198,7 +226,17 @@ func (c *ctx) one(id, class, desc string, from, to Schema, alias bool, mask int,
 	if !oracle {
 		return
 	}
-	c.judge(id, class, desc, cs, err, filterExp(exp, mask), edits)
+	if err == nil {
+		got := strings.Join(flat(cs), "\x00")
+		for _, a := range alts[1:] {
+			want := append([]string(nil), filterExp(a, mask)...)
+			sort.Strings(want)
+			if got == strings.Join(want, "\x00") {
+				return
+			}
+		}
+	}
+	c.judge(id, class, desc, cs, err, filterExp(alts[0], mask), edits)
 }
 
 // judge compares what Go returned with the changes the property requires.
@@ -366,6 +404,9 @@ func (c *ctx) identity(bi int, b Schema, thorough bool) {
 	if thorough {
 		n = 600
 	}
+	if c.lite {
+		n /= 5
+	}
 	for i := 0; i < n; i++ {
 		c.one(c.id("perm", bi), "perm", "the schema with a shuffled copy", b, c.shuffle(b), false, 0, nil, true)
 	}
@@ -404,6 +445,9 @@ func (c *ctx) single(bi int, b Schema, cat []Edit) {
 		c.w.Count("edit:" + e.Kind)
 		c.one(c.id(class, bi), class, e.Desc, b, to, false, 0, e.Exp, true, e)
 		c.one(c.id(class+"p", bi), class, e.Desc+" (lists shuffled)", c.shuffle(b), c.shuffle(to), false, 0, e.Exp, true, e)
+		if c.lite {
+			continue
+		}
 		if m := tagOf(e.Exp); m != 0 {
 			c.one(c.id("skip", bi), "skip", e.Desc+" (its kind skipped)", b, to, false, m, e.Exp, true, e)
 			c.one(c.id("skip", bi), "skip", e.Desc+" (all other kinds skipped)", b, to, false, (8191&^m)&^4, e.Exp, true, e)
@@ -417,6 +461,10 @@ func (c *ctx) single(bi int, b Schema, cat []Edit) {
 }
 
 func (c *ctx) tableCase(id, desc string, from, to Schema, tn string, exp []string, e *Edit) {
+	c.tableCaseAlt(id, desc, from, to, tn, [][]string{exp}, []*Edit{e})
+}
+
+func (c *ctx) tableCaseAlt(id, desc string, from, to Schema, tn string, alts [][]string, edits []*Edit) {
 	g1, g2 := build(c.p.dialect, from), build(c.p.dialect, to)
 	t1, ok1 := g1.Table(tn)
 	t2, ok2 := g2.Table(tn)
@@ -454,7 +502,17 @@ func (c *ctx) tableCase(id, desc string, from, to Schema, tn string, exp []strin
 	if len(cs) > 0 {
 		wrapped = []schema.Change{&schema.ModifyTable{T: t2, Changes: cs}}
 	}
-	c.judge(id, "tdiff", "TableDiff "+desc, wrapped, err, exp, []*Edit{e})
+	if err == nil {
+		got := strings.Join(flat(wrapped), "\x00")
+		for _, a := range alts[1:] {
+			want := append([]string(nil), a...)
+			sort.Strings(want)
+			if got == strings.Join(want, "\x00") {
+				return
+			}
+		}
+	}
+	c.judge(id, "tdiff", "TableDiff "+desc, wrapped, err, alts[0], edits)
 }
 
 func (c *ctx) multi(bi int, b Schema, cat []Edit, thorough bool) {
@@ -465,6 +523,9 @@ func (c *ctx) multi(bi int, b Schema, cat []Edit, thorough bool) {
 	}
 	if c.p.scoped {
 		n /= 3
+	}
+	if c.lite {
+		n /= 6
 	}
 	var real []int
 	for i := range cat {
@@ -516,6 +577,10 @@ func expressible(dialect string, from, to Schema) bool {
 	if dialect == "sqlite" {
 		return true
 	}
+	if !sameTableNames(from, to) {
+		// lower_case_table_names: the model looks tables up by their exact name
+		return false
+	}
 	eq := func(a, b *string) bool { return (a == nil) == (b == nil) && (a == nil || *a == *b) }
 	for _, t := range from.Tables {
 		u := to.table(t.Name)
@@ -537,4 +602,20 @@ func expressible(dialect string, from, to Schema) bool {
 		return false
 	}
 	return !flags(from) && !flags(to)
+}
+
+// sameTableNames: no table of one side has a counterpart on the other whose name differs in
+// case only (MySQL with lower_case_table_names != 0 pairs them; the model does not).
+func sameTableNames(from, to Schema) bool {
+	for _, t := range from.Tables {
+		if to.table(t.Name) != nil {
+			continue
+		}
+		for _, u := range to.Tables {
+			if strings.EqualFold(t.Name, u.Name) {
+				return false
+			}
+		}
+	}
+	return true
 }
